@@ -144,6 +144,32 @@ func runTerm(c *Ctx) {
 		}
 		c.Note(fmt.Sprintf("space (iii) size<=%d", t.size), fmt.Sprintf("%d grammar-derived specs over %d leaves x %d argvs (length<=%d over %q) x 4 subsets of {a,o} backed by a set environment variable", ns, len(t.leaves), len(argvs), t.alen, t.toks))
 	}
+	// (v) operator towers: stacks of optional / repetition operators around a two-leaf sequence or choice
+	{
+		depth := 2
+		if c.Thorough() {
+			depth = 3
+		}
+		specs := towerSpecs(towerPairs, depth)
+		argvs := [][]string{{}, {"x"}, {"x", "x"}, {"-a"}, {"-a", "x"}, {"x", "-a", "x"}, {"-b", "-a"}, {"--", "x"}, {"x", "x", "x"}}
+		for _, spec := range specs {
+			i++
+			if !c.Mine(i) {
+				continue
+			}
+			if !c.Begin("spec="+spec, "argv=", "env=") {
+				continue
+			}
+			c.Count("tower_specs", 1)
+			for _, env := range envSubsets {
+				for _, av := range argvs {
+					termCase(c, d, spec, av, env, "towers")
+				}
+			}
+		}
+		c.Note("space (v)", fmt.Sprintf("%d operator towers W3(W1(a) op W2(b)): leaf pairs %q, op in {juxtaposition, |}, W any stack of <= %d of { [s], (s)..., [s]... }, x %d argvs x 4 environment subsets", len(specs), towerPairs, depth, len(argvs)))
+
+	}
 }
 
 func replayTermCrash(c *Ctx, parts []string) {
